@@ -93,6 +93,7 @@ type ClientPlan struct {
 	RestJSON    []byte      `json:"rest_json,omitempty"` // REST body as JSON text (instead of Msgs)
 	ContentType string      `json:"content_type,omitempty"`
 	ExtraHdrs   [][2]string `json:"extra_hdrs,omitempty"`
+	ReqTrailers [][2]string `json:"req_trailers,omitempty"` // request trailers: announced with the head, their values arrive after the body (net/http fills Request.Trailer when the body reports EOF)
 	GetBase64   *bool       `json:"get_base64,omitempty"`
 	// transport
 	DeclareCL        string  `json:"declare_cl,omitempty"` // "" (exact for unary forms on h1, none for streams) | none | exact | +N | -N | =N
